@@ -241,7 +241,7 @@ def judge(sc, ob, kind, expect):
                      f"{'created' if ob['before'] is None else 'overwritten'} ({len(ob['after'] or b'')} bytes)")
     if success and (not changed or ob["after"] is None):
         probs.append("the run reported success but no SKR was written")
-    if success and expect in ("pre-sign-failure", "post-sign-failure"):
+    if success and expect in ("pre-sign-failure", "post-sign-failure", "fault-error"):
         probs.append(f"the run succeeded although {sc.get('why', expect)}")
     if expect == "success" and not success:
         probs.append(f"a clean ceremony did not complete: {r}")
@@ -417,11 +417,13 @@ for b, label in FAULT_BASES:
         for k in KINDS.get(op, ["error"]):
             positions.append((idx, op, k))
     if not THOROUGH:
-        signpos = [p for p in positions if p[1] == "sign"]
-        rest = [p for p in positions if p[1] != "sign"]
+        signpos = [p for p in positions if p[1] in ("sign", "open", "login")]       # every signing call and every session set-up step, the rest sampled
+        rest = [p for p in positions if p[1] not in ("sign", "open", "login")]
         positions = signpos + R.sample(rest, min(len(rest), 25))
     for idx, op, k in positions:
-        go(dict(b, faults={idx: k}, out_existing=R.choice([None, OLD]), why=f"token fault {k} on {op} operation #{idx}"), f"fault-{label}-{op}", "fault")
+        # an error returned by the token is a token fault whatever the tool does next: no SKR (the other kinds may be harmless; their outcome is judged on the SKR)
+        go(dict(b, faults={idx: k}, out_existing=R.choice([None, OLD]), why=f"the token returned an error on {op} operation #{idx} of the ceremony" if k == "error" else f"token fault {k} on {op} operation #{idx}"),
+           f"fault-{label}-{op}", "fault-error" if k == "error" else "fault")
 
 # a token that returns RSA results as minimal-length integers: harmless unless a signature starts with a zero octet - ceremonies are searched
 # (cycle start shifted second by second) until the reference signer says one of the requested signatures does, then every signing call strips
